@@ -14,8 +14,6 @@ import KiraModel.Model.Conc.ClockShared
 namespace K.Exec.Clock
 open K K.Proto K.Conc
 
-def clockFuel : Nat := 1048576
-
 def b01 (b : Bool) : String := if b then "1" else "0"
 
 def showClockState (c : Clock Float) : String :=
@@ -40,6 +38,14 @@ def clockStep (st : ClockSuiteState) (tok : List String) : Option (ClockSuiteSta
       let v ← parseValue codecCs v
       let c := Clock.new v
       pure ({ st with c := some c }, showClock c)
+  -- a fresh clock at `v` ticks per second, started, one update of 1 s: the timer is exactly `v`
+  -- (the harness compares kira's result with the tick loop the code used to run)
+  | ["tick", v] => do
+      let v ← f64? v
+      let c0 := ((Clock.new (.fixed (.ticksPerSecond v))).hStart).onStartProcessing
+      let (c', r) := c0.update 1.0 Info.empty
+      let rs := match r with | none => "-" | some n => toString n
+      pure (st, s!"{rs} {showClockState c'}")
   | _ => do
     let c ← st.c
     match tok with
@@ -53,11 +59,9 @@ def clockStep (st : ClockSuiteState) (tok : List String) : Option (ClockSuiteSta
     | ["osp"] => let c := c.onStartProcessing; pure ({ st with c := some c }, showClock c)
     | ["update", dt] => do
         let dt ← f64? dt
-        match c.update clockFuel dt st.info.toInfo with
-        | none => pure (st, "fault hang")
-        | some (c', r) =>
-          let rs := match r with | none => "-" | some n => toString n
-          pure ({ st with c := some c' }, s!"{rs} {showClock c'}")
+        let (c', r) := c.update dt st.info.toInfo
+        let rs := match r with | none => "-" | some n => toString n
+        pure ({ st with c := some c' }, s!"{rs} {showClock c'}")
     | _ => none
 
 /-! ### suite `clocksys` -/
@@ -166,7 +170,7 @@ def runChunks (st : SysSuiteState) : List Nat → List String → Option (SysSui
   | [], acc => some (st, acc.reverse)
   | n :: rest, acc =>
     let dt : Float := (1.0 / Float.ofNat st.sr) * Float.ofNat n
-    match st.s.chunk clockFuel dt with
+    match st.s.chunk dt with
     | none => none
     | some s' =>
       let started := markStarted st.started s'.waiters st.frame
@@ -197,7 +201,7 @@ def showHandles (st : SysSuiteState) : String :=
   String.intercalate "," items
 
 def sysEv (st : SysSuiteState) (e : Ev Float) : Option SysSuiteState :=
-  (st.s.step clockFuel e).map (fun s => { st with s := s })
+  (st.s.step e).map (fun s => { st with s := s })
 
 def clockSysStepCore (st : SysSuiteState) (tok : List String) : Option (SysSuiteState × String) :=
   match tok with
@@ -354,9 +358,8 @@ def tearStepCore (st : TearState) (tok : List String) : Option (TearState × Str
     match tok with
     | ["adv", dt] => do
         let dt ← f64? dt
-        match c.update clockFuel dt Info.empty with
-        | none => pure (st, "fault hang")
-        | some (c', _) => pure ({ st with c := some c' }, showClock c')
+        let (c', _) := c.update dt Info.empty
+        pure ({ st with c := some c' }, showClock c')
     | ["pub"] => do
         let (c, cs) ← runSched c st.cs [.audA, .audB] [] []
         pure ({ c := some c, cs := cs }, showClock c)
